@@ -223,10 +223,14 @@ def check_C07(ctx):
             if a["outcome"][:len(want)] != want or (pol == 2 and not str(a["outcome"][1]).startswith("err:")) \
                     or (pol == 0 and a["outcome"][1] is None):
                 ctx.violation("policy", "command with policy %d rejected %r but the end is %r" % (pol, c["argv"], a["outcome"]), case=c)
-            # the level that the reference semantics rejects first must be the owner
+            # the rejecting command is the first one whose own arguments are invalid
             vs = [verdicts[(k, j)] for j in range(len(cmds))]
-            if not c["_extra"] and None not in vs[:owner + 1] and False in vs and vs.index(False) != owner:
-                ctx.violation("policy", "the first level with invalid arguments of %r is %d but %d reported" % (c["argv"], vs.index(False), owner), case=c)
+            conv = a["stderr"][0] == "Error: <conv>"
+            if not c["_extra"]:
+                if any(v is False for v in vs[:owner]):
+                    ctx.violation("policy", "level %d of %r has invalid arguments but level %d reported" % (vs.index(False), c["argv"], owner), case=c)
+                elif (vs[owner] is True and not conv) or (vs[owner] is False and conv):
+                    ctx.violation("policy", "level %d of %r: reference verdict %r but rejection %r" % (owner, c["argv"], vs[owner], a["stderr"][0]), case=c)
         else:
             if accepted(a):
                 stats["accepted"] += 1
@@ -467,6 +471,8 @@ TOKENS = ["0", "1", "-1", "+1", "007", "-0", "9223372036854775807", "92233720368
           "TRUE", "True", "tRue", "f", "F", "false", "FALSE", "False", "yes", "no", "on", "2", "a b", "a,b", "é", "\x00x",
           "\xff\xfe", "1\n", "--", "-", "=", "=1", "1=", "\"1\"", "'1'", "١", "１", "1١", "0.1e", "e5", "+", "++1", "--1",
           "1__0", "_1", "0_1", "1e+", "12345678901234567890", "00000000000000000000001", "-.5e+2", "0X1P+3", "NAN()", "truE"]
+# byte strings: non-Latin-1 text is carried as its UTF-8 bytes
+TOKENS = [t if all(ord(ch) < 256 for ch in t) else t.encode("utf-8").decode("latin-1") for t in TOKENS]
 
 
 def check_C13(ctx):
@@ -616,7 +622,7 @@ def expected_decl_panic(decls):
 def check_C18(ctx):
     rng = ctx.rng
     cases = []
-    onames = ["a", "b", "f", "force", "o", "out", "v", "x", "aa", "A", "1", "-", "a-b", "_"]
+    onames = ["a", "b", "f", "force", "o", "out", "v", "x", "aa", "A", "1", "a-b", "_", "ab"]
     anames = ["SRC", "DST", "X", "src", "Src", "S R", "A1", "_A", "1A", "OPTIONS", "A-B", "A.B", "", "É", "A_", "ARG", "-", "--", "[A]", "A..."]
     for _ in range(ctx.scale(4000, 40000)):
         decls = []
